@@ -130,10 +130,10 @@ func (f *vfFrameRun) check(id, cls string, msgs []*vfFMsg, raw []byte, segs [][]
 		want = append(want, m.abs())
 	}
 	type agg struct {
-		got   []vfM
-		pm    string
-		n     int
-		cuts  []int
+		got  []vfM
+		pm   string
+		n    int
+		cuts []int
 	}
 	seen := map[string]*agg{}
 	for _, cuts := range segs {
@@ -489,6 +489,71 @@ func TestVfFraming(t *testing.T) {
 			f.runs++
 			ncase++
 		}
+	}
+	// (5) the receive loop of the real TCPServerTransport on a pipe, where one write is one read: every single cut and
+	// every pair of cuts 1-4 bytes apart (a segment consisting of nothing but part of a line end, of the blank line
+	// that ends the headers, of a short body ...) of short streams - what the reader sees between the socket and bufio
+	// is part of the mechanism
+	npipe := vfEnvInt("VERIF_NPIPE", 3)
+	for i := 0; i < npipe; i++ {
+		h := &vfFrameHandler{}
+		ts := NewTCPServerTransport(vfIPBase()+"1", 0, true, h, NewSelfLearnRoute())
+		ts.msgHandler = h
+		nm := 2 + f.rnd.Intn(3)
+		var msgs []*vfFMsg
+		for j := 0; j < nm; j++ {
+			msgs = append(msgs, f.randMsg(30, []int{1, 4, 40}[f.rnd.Intn(3)]))
+		}
+		raw := f.concat(msgs, "\r\n")
+		want := []vfM{}
+		for _, m := range msgs {
+			want = append(want, m.abs())
+		}
+		var segs [][]int
+		for c := 1; c < len(raw); c++ {
+			segs = append(segs, []int{c})
+			for k := 1; k <= 4 && c+k < len(raw); k++ {
+				segs = append(segs, []int{c, c + k})
+			}
+		}
+		// as in check(): one line per DISTINCT outcome with the number of segmentations that produced it; TLC compares
+		type agg struct {
+			got  []vfM
+			n    int
+			cuts []int
+		}
+		seen := map[string]*agg{}
+		for _, cuts := range segs {
+			h.reset()
+			cli, srv := net.Pipe()
+			done := make(chan struct{})
+			go func() { ts.receiveMessage(srv); close(done) }()
+			go io.Copy(io.Discard, cli) // whatever the transport may write back (a keep-alive pong ...) is read and ignored
+			for _, ch := range vfCut(raw, cuts) {
+				cli.Write(ch)
+			}
+			cli.Close()
+			select {
+			case <-done:
+			case <-time.After(20 * time.Second):
+				t.Fatalf("VF-INFRA the receive loop did not end after the pipe was closed")
+			}
+			h.mu.Lock() // the receive loop has ended: everything it handed over is here
+			got := append([]vfM{}, h.got...)
+			h.mu.Unlock()
+			f.runs++
+			k, _ := json.Marshal(got)
+			if a, ok := seen[string(k)]; ok {
+				a.n++
+			} else {
+				seen[string(k)] = &agg{got, 1, cuts}
+			}
+		}
+		for _, a := range seen {
+			tr.Emit(vfM{"ev": "frame", "case": fmt.Sprintf("pipe%d", i), "cls": fmt.Sprintf("pipe msgs=%d len=%d segmentations=%d e.g.cuts=%v", nm, len(raw), a.n, a.cuts), "prop": "C11",
+				"want": want, "got": a.got, "panic": ""})
+		}
+		ncase++
 	}
 	fmt.Printf("VF cases=%d events=%d runs=%d\n", ncase, tr.n, f.runs)
 }
